@@ -96,6 +96,9 @@ func Assert(c bool, msg string) {
 // Symbolic reports whether the harness runs under the symbolic engine (false in native replay).
 func Symbolic() bool { return false }
 
+// Split8 asks the engine to value-split v (one path per feasible value); identity natively.
+func Split8(v uint8) uint8 { return v }
+
 // Candidate states a sufficient condition for the property (e.g. "same arguments reach the codec").
 // A solver counterexample to it is only a candidate: it becomes a violation if the native replay,
 // where the property itself is asserted on real output, fails. Natively a no-op.
